@@ -23,7 +23,13 @@ type CodeBuilder struct {
 	// scopesOf maps a name to the indexes (innermost last) of the scopes of
 	// context in which it is currently declared, so that resolving a name does
 	// not walk every enclosing scope.
-	scopesOf     map[Name][]int
+	scopesOf map[Name][]int
+	// labelScopes does the same for goto labels.
+	labelScopes map[Name][]int
+	// cellScopes lists, in ascending order, the indexes of the scopes of
+	// context holding at least one register tagged regHasUpvalue (the ones a
+	// jump out of them has to clear).
+	cellScopes   []int
 	parent       *CodeBuilder
 	upvalues     []Register
 	upvalueDests []Register
@@ -81,12 +87,26 @@ func (c *CodeBuilder) DeclareGotoLabelNoLine(name Name) Label {
 
 func (c *CodeBuilder) DeclareGotoLabel(name Name, line int) Label {
 	lbl := c.GetNewLabel()
-	c.context.addLabel(name, lbl, line)
+	if c.context.addLabel(name, lbl, line) {
+		if c.labelScopes == nil {
+			c.labelScopes = make(map[Name][]int)
+		}
+		i := len(c.context) - 1
+		if idx := c.labelScopes[name]; len(idx) == 0 || idx[len(idx)-1] != i {
+			c.labelScopes[name] = append(idx, i)
+		}
+	}
 	return lbl
 }
 
+// getGotoLabel returns the label of that name declared in the innermost
+// enclosing scope that has one.
 func (c *CodeBuilder) getGotoLabel(name Name) (Label, int, bool) {
-	return c.context.getLabel(name)
+	idx := c.labelScopes[name]
+	if len(idx) == 0 {
+		return 0, 0, false
+	}
+	return c.context[idx[len(idx)-1]].getLabel(name)
 }
 
 func (c *CodeBuilder) EmitGotoLabel(name Name) error {
@@ -143,13 +163,32 @@ func (c *CodeBuilder) lookup(name Name, tags uint) (reg Register, ok bool) {
 		return
 	}
 	verifScopeVisit()
-	scope := c.context[idx[len(idx)-1]]
+	i := idx[len(idx)-1]
+	scope := c.context[i]
 	tr := scope.reg[name]
 	if tags != 0 {
 		tr.tags |= tags
 		scope.reg[name] = tr
+		if tags&regHasUpvalue != 0 {
+			c.noteCellScope(i)
+		}
 	}
 	return tr.reg, true
+}
+
+// noteCellScope records that the scope of index i holds a register tagged
+// regHasUpvalue.
+func (c *CodeBuilder) noteCellScope(i int) {
+	k := len(c.cellScopes)
+	for k > 0 && c.cellScopes[k-1] > i {
+		k--
+	}
+	if k > 0 && c.cellScopes[k-1] == i {
+		return
+	}
+	c.cellScopes = append(c.cellScopes, 0)
+	copy(c.cellScopes[k+1:], c.cellScopes[k:])
+	c.cellScopes[k] = i
 }
 
 func (c *CodeBuilder) getRegister(name Name, tags uint) (reg Register, ok bool) {
@@ -209,6 +248,14 @@ func (c *CodeBuilder) PopContext() {
 	c.emitTruncate(context.top())
 	c.context = context
 	c.emitClearReg(top)
+	if n := len(c.cellScopes); n > 0 && c.cellScopes[n-1] == len(context) {
+		c.cellScopes = c.cellScopes[:n-1]
+	}
+	for name := range top.label {
+		if idx := c.labelScopes[name]; len(idx) > 0 && idx[len(idx)-1] == len(context) {
+			c.labelScopes[name] = idx[:len(idx)-1]
+		}
+	}
 	for name, tr := range top.reg {
 		if idx := c.scopesOf[name]; len(idx) > 0 && idx[len(idx)-1] == len(context) {
 			c.scopesOf[name] = idx[:len(idx)-1]
@@ -247,20 +294,22 @@ func (c *CodeBuilder) emitTruncate(m lexicalScope) {
 }
 
 func (c *CodeBuilder) EmitJump(lblName Name, line int) bool {
-	var (
-		lc  = c.context
-		top lexicalScope
-	)
-	for len(lc) > 0 {
-		lc, top = lc.pop()
-		if lbl, line, ok := top.getLabel(lblName); ok {
-			c.emitTruncate(top)
-			c.Emit(Jump{Label: lbl}, line)
-			return true
-		}
-		c.emitClearReg(top)
+	idx := c.labelScopes[lblName]
+	if len(idx) == 0 {
+		return false
 	}
-	return false
+	target := idx[len(idx)-1]
+	// The registers captured by closures in the scopes that the jump leaves
+	// are cleared, innermost scope first.
+	for k := len(c.cellScopes) - 1; k >= 0 && c.cellScopes[k] > target; k-- {
+		verifScopeVisit()
+		c.emitClearReg(c.context[c.cellScopes[k]])
+	}
+	top := c.context[target]
+	lbl, line, _ := top.getLabel(lblName)
+	c.emitTruncate(top)
+	c.Emit(Jump{Label: lbl}, line)
+	return true
 }
 
 func (c *CodeBuilder) DeclareLocal(name Name, reg Register) {
